@@ -58,6 +58,15 @@ CLAIMED = {
              "non-negative sizes and positive Aerotech packet sizes; for ParallelEtherCat the window base comes from FMMULock (C23).",
         technique="Coq invariant proof over the allocation fold + differential correspondence",
         ref="7/C18"),
+    "C30": dict(
+        text="Theorems C30_inputs_before_update, C30_outputs_next_frame, C30_wkc_cleared, C30_error_iff_mismatch hold for every response frame, counter table and "
+             "device behaviour (devices = arbitrary function from the data seen to byte writes). The model of update_devices is tied to the code by running the "
+             "REAL SyncGroupBase.run/update_devices cycle (real terminals, map_fmmu, to_operational, sendloop) on a register-level simulated EtherCAT segment, "
+             "with random inputs, device outputs, working counters tampered per datagram (low byte, high byte, both) and lost frames.",
+        note=TB + "Modelled: SyncGroup.update_devices (Ecat/Cycle.v). harness/sim_bus.py (bus simulator) and asyncio are trusted for the correspondence; devices "
+             "are assumed not to write working-counter bytes.",
+        technique="Coq proof over all frames/devices + differential correspondence on a simulated bus",
+        ref="7/C30"),
 }
 
 REASONS_NOT_YET = "no check built yet in this round (planned, see DESIGN.md section 7); nothing is claimed for it"
